@@ -104,6 +104,8 @@ def instr_to_text(ins):
         return " ".join(parts)
     if n in ("mupdate", "params"):
         return n
+    if n == "mfreeze":
+        return "mfreeze %s" % _us(ins[1])
     if n == "probe":
         return "probe %d" % ins[1]
     raise ValueError("unknown instruction %r" % (ins,))
